@@ -181,6 +181,84 @@ decreasing_by
   · have := splitPoint_pos ls.length
     simp [List.length_drop]; omega
 
+/-! ## The 4-lane sector accumulator (rhp/v2 and rhp/v4 `sectorAccumulator`)
+
+The algorithm of the SIMD code without its pointer casts: `trees[h]` holds FOUR subtree roots per
+height and `SumNodes` merges two such quads into one (`blake2b.SumNodes` on 8 adjacent hashes);
+`nodeBuf` collects up to four nodes before `mergeNodeBuf` pushes them down the carry chain.
+Levels are counted from the bottom (`level = len(trees)-1-i` for Go's index `i`); Go's 15-level
+bound (`numLeaves ≤ 2^16`) is not modelled. Intermediate results that Go leaves behind in slots it
+marks as empty are not modelled (they are overwritten before they are read again). -/
+
+/-- four hashes: one `[4][32]byte` row -/
+structure Quad (H : Type) where
+  a : H
+  b : H
+  c : H
+  d : H
+
+def Quad.set {H : Type} (q : Quad H) (i : Nat) (h : H) : Quad H :=
+  match i with
+  | 0 => { q with a := h }
+  | 1 => { q with b := h }
+  | 2 => { q with c := h }
+  | _ => { q with d := h }
+
+/-- `SumNodes(&trees[i], trees[i] ‖ next)`: four pair hashes over eight adjacent nodes -/
+def mergeQuads {H : Type} [HashOps H] (x y : Quad H) : Quad H :=
+  ⟨node x.a x.b, node x.c x.d, node y.a y.b, node y.c y.d⟩
+
+/-- `root4`: the root of the four subtrees of one row (two rounds of `SumNodes`) -/
+def root4 {H : Type} [HashOps H] (q : Quad H) : H := node (node q.a q.b) (node q.c q.d)
+
+/-- the rows are merged exactly like single hashes in `proofAccumulator`; this instance lets the
+carry loop `carry` be shared (only `node` is used) -/
+instance quadOps {H : Type} [HashOps H] : HashOps (Quad H) where
+  zero := ⟨zero, zero, zero, zero⟩
+  leaf := fun b => ⟨leaf b, leaf b, leaf b, leaf b⟩
+  node := mergeQuads
+
+structure SecAcc (H : Type) where
+  trees : Nat → Quad H
+  nodeBuf : Quad H
+  numLeaves : Nat
+
+def SecAcc.empty {H : Type} [HashOps H] : SecAcc H := ⟨fun _ => zero, zero, 0⟩
+
+/-- `mergeNodeBuf()`: merge `nodeBuf` into the rows while `hasNodeAtHeight`, store, `numLeaves += 4` -/
+def SecAcc.mergeNodeBuf {H : Type} [HashOps H] (sa : SecAcc H) : SecAcc H :=
+  let r := carry sa.trees (sa.numLeaves / 4) 0 sa.nodeBuf
+  { sa with trees := setTree sa.trees r.1 r.2, numLeaves := sa.numLeaves + 4 }
+
+/-- `appendNode(h)` -/
+def SecAcc.appendNode {H : Type} [HashOps H] (sa : SecAcc H) (h : H) : SecAcc H :=
+  let sa1 := { sa with nodeBuf := sa.nodeBuf.set (sa.numLeaves % 4) h, numLeaves := sa.numLeaves + 1 }
+  if sa1.numLeaves % 4 = 0 then { sa1 with numLeaves := sa1.numLeaves - 4 }.mergeNodeBuf else sa1
+
+/-- `appendLeaves(leaves)` over the leaf hashes: whole groups of four go through `SumLeaves`
+straight into `nodeBuf` (overwriting it — Go relies on `numLeaves % 4 == 0` here), the rest
+through `appendNode` -/
+def SecAcc.appendLeafHashes {H : Type} [HashOps H] (sa : SecAcc H) : List H → SecAcc H
+  | w :: x :: y :: z :: rest => ({ sa with nodeBuf := ⟨w, x, y, z⟩ }.mergeNodeBuf).appendLeafHashes rest
+  | l => l.foldl SecAcc.appendNode sa
+
+/-- `root()` -/
+def SecAcc.root {H : Type} [HashOps H] (sa : SecAcc H) : H :=
+  if sa.numLeaves = 0 then zero
+  else
+    let part : Option H :=
+      match sa.numLeaves % 4 with
+      | 0 => none
+      | 1 => some sa.nodeBuf.a
+      | 2 => some (node sa.nodeBuf.a sa.nodeBuf.b)
+      | _ => some (node (node sa.nodeBuf.a sa.nodeBuf.b) sa.nodeBuf.c)
+    (rootLoop (fun l => root4 (sa.trees l)) (sa.numLeaves / 4) 0 part).getD zero
+
+/-- Go `MetaRoot(roots)`: the sector accumulator up to `LeavesPerSector` roots, the recursion above -/
+def leavesPerSector : Nat := 65536
+def goMetaRootSA {H : Type} [HashOps H] (ls : List H) : H :=
+  goMetaRoot leavesPerSector (fun l => (l.foldl SecAcc.appendNode SecAcc.empty).root) ls
+
 /-! ## Range proofs over a list of roots (rhp/v2 Build/VerifySectorRangeProof,
 rhp/v4 Build/VerifySectorRootsProof, VerifyLeafProof) -/
 
